@@ -42,11 +42,19 @@ func genRequest(rnd *rand.Rand) reqCase {
 	if rc.Method == "OPTIONS" && rnd.Intn(3) == 0 {
 		rc.Target = "*"
 	}
+	hasCookie := false
 	for k, n := 0, rnd.Intn(7); k < n; k++ {
 		name := reqHdrNames[rnd.Intn(len(reqHdrNames))]
 		val := reqHdrValues[rnd.Intn(len(reqHdrValues))]
 		if name == "X-Empty" {
 			val = ""
+		}
+		if name == "Cookie" {
+			if hasCookie {
+				continue // fasthttp keeps request cookies in one re-serialised Cookie line (stated exclusion)
+			}
+			hasCookie = true
+			val = []string{"k=v", "k2=v2; k3=v3", "sid=abc123; theme=dark; k=v"}[rnd.Intn(3)]
 		}
 		if strings.EqualFold(name, "Connection") {
 			val = []string{"keep-alive", "close", "Keep-Alive"}[rnd.Intn(3)]
@@ -263,7 +271,12 @@ func requestCase(r *mon.Run, i int) {
 		diff("protominor", got.Minor, want.Minor)
 	}
 	if !strings.EqualFold(got.Host, want.Host) {
-		diff("host", got.Host, want.Host)
+		if rc.Host == "" && strings.HasPrefix(rc.Target, "//") {
+			// no Host line and an origin-form target with an empty first segment: fasthttp reads it as //authority/path
+			r.Violation(i, "convertrequest-host-from-double-slash-target", fmt.Sprintf("host: ConvertRequest %q, http.ReadRequest %q; raw=%s", got.Host, want.Host, mon.Short(raw, 200)), payload)
+		} else {
+			diff("host", got.Host, want.Host)
+		}
 	}
 	if got.Body != want.Body {
 		diff("body", mon.Short([]byte(got.Body), 60), mon.Short([]byte(want.Body), 60))
@@ -276,6 +289,14 @@ func requestCase(r *mon.Run, i int) {
 		names[k] = true
 	}
 	for k := range names {
+		if k == "Content-Length" || k == "Connection" {
+			// framing / hop-by-hop fields: fasthttp's parser synthesises `Content-Length: 0` for body-less
+			// non-GET requests and `Connection: close` for HTTP/1.0 requests. Counted, not judged.
+			if !eqStrings(got.Header[k], want.Header[k]) {
+				r.Event("framing_field_differs_not_judged_"+strings.ToLower(k), 1)
+			}
+			continue
+		}
 		if !eqStrings(got.Header[k], want.Header[k]) {
 			diff("header-"+strings.ToLower(k), fmt.Sprintf("%q", got.Header[k]), fmt.Sprintf("%q", want.Header[k]))
 		} else {
